@@ -19,6 +19,7 @@ import (
 	"os/exec"
 	"path/filepath"
 	"runtime"
+	"sort"
 	"strconv"
 	"strings"
 	"sync"
@@ -106,6 +107,7 @@ func runAttackMonitor(c *Ctx, id string) int {
 	if id == "C02" {
 		run.Floor("stop_histories_checked", int64(c.Pick(1500, 40000)))
 		run.Floor("cli_runs", 3)
+		run.Floor("attacks_sharing_an_attacker", int64(nStress*3*2*9/10))
 	} else {
 		run.Floor("cap_checks_at_transport_entry", 50000)
 	}
@@ -155,6 +157,11 @@ func attackChild(c *Ctx, id string) int {
 			b, _ := json.Marshal(sc)
 			logCase(string(b))
 			runStress(run, sc, id)
+		}
+		if id == "C02" {
+			for i := 0; i < 3; i++ {
+				runDual(run, rng)
+			}
 		}
 	case "stopconc":
 		rng := rand.New(rand.NewSource(c.Seed*31 + int64(atoi(1))))
@@ -569,6 +576,103 @@ func runStress(run *ev.Run, sc stressCase, filter string) {
 	}
 	run.Class("stress/" + cause)
 	run.Distinct(fmt.Sprintf("stress:%d:%d:%s:%d", sc.Workers, sc.Max, cause, sc.Seed))
+}
+
+// runDual drives several attacks - concurrently, or one after the other - through ONE Attacker.
+// Each attack has its own targeter, pacer and consumer; "in any attack" the results it delivers are
+// numbered 0..n-1, carry its own name and equal its own started hits in number, whatever the other
+// attacks of the same Attacker do. (The attacks share the Attacker's stop channel: the first one to
+// end cuts the others short, which only makes their n smaller.)
+func runDual(run *ev.Run, rng *rand.Rand) {
+	k := 2 + rng.Intn(2)
+	sequential := rng.Intn(3) == 0
+	maxW := []uint64{1, 2, 8, 32}[rng.Intn(4)]
+	type one struct {
+		name     string
+		tg       *recTargeter
+		seen     map[uint64]int
+		foreign  int
+		received int
+		done     chan struct{}
+	}
+	rt := &freeTransport{run: run, max: 1 << 30, spinMax: []int{0, 50, 500}[rng.Intn(3)]}
+	atk := vegeta.NewAttacker(vegeta.Client(&http.Client{Transport: rt}), vegeta.Workers(uint64(rng.Intn(4))), vegeta.MaxWorkers(maxW))
+	desc := map[string]any{"attacks_on_one_attacker": k, "sequential": sequential, "max_workers": maxW}
+	b, _ := json.Marshal(desc)
+	logCase(string(b))
+	as := make([]*one, k)
+	stops := make([]int, k)
+	all := make(chan struct{})
+	start := func(i int) {
+		a := &one{name: fmt.Sprintf("dual-%d", i), tg: &recTargeter{targets: defaultTargets()}, seen: map[uint64]int{}, done: make(chan struct{})}
+		as[i] = a
+		stops[i] = 300 + rng.Intn(4000)
+		res := atk.Attack(a.tg.Targeter(), &freePacer{stopAt: int64(stops[i])}, 0, a.name)
+		go func() {
+			defer close(a.done)
+			for r := range res {
+				if r.Attack != a.name {
+					a.foreign++
+				}
+				a.seen[r.Seq]++
+				a.received++
+			}
+		}()
+	}
+	go func() {
+		defer close(all)
+		for i := 0; i < k; i++ {
+			start(i)
+			if sequential {
+				<-as[i].done
+			}
+		}
+		for i := 0; i < k; i++ {
+			<-as[i].done
+		}
+	}()
+	switch st, dump := awaitEnd(all, 120*time.Second); st {
+	case endDeadlock:
+		run.Violate("C02/not-closed-after-end/several-attacks-one-attacker", fmt.Sprintf("%s: all goroutines are parked and a results channel is not closed", b), map[string]any{"case": desc, "goroutines": tail(dump, 3000)})
+		return
+	case endWatchdog:
+		run.Inconclusive("attacks on one Attacker did not end before the watchdog")
+		return
+	}
+	run.Eval(1)
+	run.Count("attackers_driving_several_attacks", 1)
+	for i, a := range as {
+		started := int(a.tg.calls.Load())
+		run.Count("attacks_sharing_an_attacker", 1)
+		run.Count("stress_results", int64(a.received))
+		d := map[string]any{"case": desc, "attack": i, "pacer_stops_at_call": stops[i], "started": started, "received": a.received}
+		if a.foreign > 0 {
+			run.Violate("C02/foreign-result/several-attacks-one-attacker", fmt.Sprintf("%s: attack %d received %d results that carry another attack's name", b, i, a.foreign), d)
+		}
+		if a.received != started {
+			run.Violate("C02/result-count/several-attacks-one-attacker", fmt.Sprintf("%s: attack %d started %d hits (targeter calls) and delivered %d results", b, i, started, a.received), d)
+		}
+		for s := 0; s < started; s++ {
+			if a.seen[uint64(s)] != 1 {
+				var got []uint64
+				for q := range a.seen {
+					got = append(got, q)
+				}
+				sort.Slice(got, func(x, y int) bool { return got[x] < got[y] })
+				d["sequence_numbers_head"] = got[:min(len(got), 24)]
+				run.Violate("C02/"+map[bool]string{true: "seq-gap", false: "duplicate-seq"}[a.seen[uint64(s)] == 0]+"/several-attacks-one-attacker",
+					fmt.Sprintf("%s: attack %d delivered sequence number %d %d times (it started %d hits; its numbers begin %v)", b, i, s, a.seen[uint64(s)], started, d["sequence_numbers_head"]), d)
+				break
+			}
+		}
+	}
+	if q, ok := waitQuiescent(40000, nil); !ok {
+		run.Inconclusive("no quiescent state after attacks on one Attacker")
+	} else if q.VegetaGs != 0 {
+		run.Violate("C02/goroutine-leak/several-attacks-one-attacker", fmt.Sprintf("%s: %d goroutines of the attacks are left after all channels were closed", b, q.VegetaGs), map[string]any{"case": desc, "goroutines": describeGs(q.Gs)})
+	}
+	run.Class(map[bool]string{true: "several-attacks/sequential", false: "several-attacks/concurrent"}[sequential])
+	run.Distinct(fmt.Sprintf("dual:%s:%v", b, stops))
 }
 
 // ---- (d) the real CLI under signals ------------------------------------------
